@@ -169,13 +169,17 @@ def tok_entries():
             continue
         for sub, rx, reason, guard in TOK_RULES:
             if sub in fn and re.search(rx, k):
-                e = {"key": "TOK|" + k, "reason": reason}
-                if guard:
-                    e["guard"] = guard
-                entries.append(e)
                 break
         else:
             missing.append(k)
+    # The tokenization-path table is kept as (function, pattern) rules, not as materialised
+    # keys: a justification such as "row id*w..(id+1)*w of a table with num*w vectors" covers
+    # every spelling of that row arithmetic inside the accessor.
+    for sub, rx, reason, guard in TOK_RULES:
+        e = {"scope": "TOK", "fn": sub, "rx": rx, "reason": reason}
+        if guard:
+            e["guard"] = guard
+        entries.append(e)
     return entries, missing
 
 
@@ -203,13 +207,12 @@ def main():
                               "local": "entries", "le": 65536,
                               "sink": {"adt": "UnkHandler", "field": "entries"}}})
     tok, tok_missing = tok_entries()
-    entries += tok
     missing += ["TOK|" + k for k in tok_missing]
     doc = {"_doc": "PANIC audit table: sites that no structural discharger covers, each with the "
                    "reason it cannot fire and, where safety rests on a check elsewhere, a guard "
                    "that is re-verified on every run. Generated by spec/gen_panic_table.py from the "
                    "audit notes; sites listed in known_findings.txt are deliberately absent.",
-           "entries": entries}
+           "entries": entries, "patterns": tok}
     json.dump(doc, open(os.path.join(os.path.dirname(__file__), "panic_table.json"), "w"), indent=1)
     print(len(entries), "entries;", len(missing), "unjustified:")
     for m in missing:
